@@ -14,7 +14,8 @@ REPLAYS = os.path.join(VERIF, "replays")
 JPH = os.path.join(HARNESS, "bin", "jph")
 SPEC_EXE = os.path.join(LEAN, ".lake", "build", "bin", "jpv-spec")
 IMPL_EXE = os.path.join(LEAN, ".lake", "build", "bin", "jpv-impl")
-PEG_EXE = os.path.join(LEAN, ".lake", "build", "bin", "jpv-peg")
+# the memoised driver (C02_parseModelM_eq: parseModelM = parseModel); jpv-peg (plain interpreter) is still built
+PEG_EXE = os.path.join(LEAN, ".lake", "build", "bin", "jpv-pegm")
 PEGGO_EXE = os.path.join(LEAN, ".lake", "build", "bin", "jpv-peggo")
 
 GOENV = dict(os.environ, GOFLAGS="-mod=mod", GOPROXY="off", GOSUMDB="off", GOTOOLCHAIN="local",
@@ -266,12 +267,12 @@ def prove(prop, cfg, log, thorough=False, gen_failed=None):
 def build_tools(log):
     """step 3: drivers and harness from the working tree; returns (set of drivers that do not build, harness ok, texts)"""
     bad, dtxt = set(), ""
-    for name in ("spec", "impl", "peg", "peggo"):
+    for name in ("spec", "impl", "peg", "pegm", "peggo"):
         rc, out, _ = run(["lake", "build", "jpv-" + name], cwd=LEAN, timeout=3000)
         if rc != 0:
             if name == "peggo" and os.path.exists(PEGGO_EXE):
                 os.remove(PEGGO_EXE)  # a stale binary must not answer for a source that no longer translates
-            bad.add(name)
+            bad.add("peg" if name == "pegm" else name)
             dtxt += "jpv-%s: %s\n" % (name, out[-800:])
             log.append(out)
     os.makedirs(os.path.join(HARNESS, "bin"), exist_ok=True)
